@@ -109,6 +109,30 @@ def sympy_to_blackbird(expr):
     return re.sub(pattern, r"{\1}", str(expr))
 
 
+def list_to_blackbird(values):
+    """Converts a list of scalar values to a Blackbird list, formatting
+    every element the way a scalar argument of the same type is formatted.
+
+    Args:
+        values (list): list of numbers, booleans, strings or SymPy expressions
+
+    Returns:
+        str: the Blackbird list
+    """
+    elements = []
+    for v in values:
+        if isinstance(v, str):
+            elements.append('"{}"'.format(v))
+        elif isinstance(v, complex):
+            elements.append("{}{}{}j".format(v.real, "+-"[int(v.imag < 0)], np.abs(v.imag)))
+        elif isinstance(v, sym.Expr):
+            elements.append(sympy_to_blackbird(v))
+        else:
+            elements.append("{}".format(v))
+
+    return "[{}]".format(", ".join(elements))
+
+
 class BlackbirdProgram:
     """Python representation of a Blackbird program."""
 
@@ -355,7 +379,9 @@ class BlackbirdProgram:
                     # the expected syntax
                     option_strings = []
                     for k, v in data["options"].items():
-                        if not isinstance(v, str):
+                        if isinstance(v, list):
+                            option_strings.append("{}={}".format(k, list_to_blackbird(v)))
+                        elif not isinstance(v, str):
                             option_strings.append("{}={}".format(k, v))
                         else:
                             option_strings.append('{}="{}"'.format(k, v))
@@ -392,7 +418,7 @@ class BlackbirdProgram:
             if len(op["modes"]) == 1:
                 modes = op["modes"][0]
             else:
-                modes = op["modes"]
+                modes = "[{}]".format(", ".join("{}".format(m) for m in op["modes"]))
 
             # check if the operation has any arguments
             if "args" in op:
@@ -470,6 +496,9 @@ class BlackbirdProgram:
                     elif isinstance(v, sym.Expr):
                         # kwarg contains free parameters
                         kwargs.append("{}={}".format(k, sympy_to_blackbird(v)))
+
+                    elif isinstance(v, list):
+                        kwargs.append("{}={}".format(k, list_to_blackbird(v)))
 
                     else:
                         kwargs.append("{}={}".format(k, v))
